@@ -86,10 +86,10 @@ def run(m: Model, r: Report, tier: str) -> None:
                             "RNG is not seeded from self.seed", loc=f"{f.module.relpath}:{n.lineno}")
     sr = m.require_function(f"{SRV}.RandomUDSServer.stateful_rng")
     src = ast.unparse(sr.node)
-    r.check("str(self.seed)" in src and "str(self.state.session)" in src and "str(arg) for arg in args" in src and "RNG(" in src, "R2", f"{sr.qualname}#seed-composition",
+    r.check("str(self.seed)" in src and "str(self.state.session)" in src and m.has(sr, "(str(arg) for arg in args)") and "RNG(" in src, "R2", f"{sr.qualname}#seed-composition",
             "the per-request generator must be seeded by the string of seed, session and arguments", loc=sr.loc)
     setseeds = m.require_function(f"{SRV}.RNG.set_seeds")
-    r.check("str(seed) for seed in self.seeds" in ast.unparse(setseeds.node) and "self.seed(" in ast.unparse(setseeds.node), "R2", f"{setseeds.qualname}#string-seed",
+    r.check(m.has(setseeds, "(str(seed) for seed in self.seeds)") and "self.seed(" in ast.unparse(setseeds.node), "R2", f"{setseeds.qualname}#string-seed",
             "RNG seeds must be joined as strings (random.Random.seed(str) is hash-seed independent)", loc=setseeds.loc)
 
     # ---------------------------------------------------------------- R3
@@ -137,7 +137,12 @@ def run(m: Model, r: Report, tier: str) -> None:
     for n in walk_no_nested(rz.node):
         if isinstance(n, ast.For) and isinstance(n.iter, ast.Name) and n.iter.id in set_vars:
             iterated.append((n.iter.id, n))
-    int_names = {"default_session", "session", "level"}
+    # names known to hold ints: variables assigned an int constant, loop variables over ranges / int sets / config lists
+    int_names = {ast.unparse(n.targets[0]) for n in walk_no_nested(rz.node) if isinstance(n, ast.Assign) and isinstance(n.value, ast.Constant) and isinstance(n.value.value, int)}
+    int_names |= {ast.unparse(n.target) for n in walk_no_nested(rz.node) if isinstance(n, ast.For) and isinstance(n.target, ast.Name)}
+    comb = {ast.unparse(n.targets[0]) for n in walk_no_nested(rz.node) if isinstance(n, ast.Assign) and "mandatory_sessions + self.randomness_parameters.optional_sessions" in ast.unparse(n.value)}
+    trans_names = {ast.unparse(n.targets[0]) for n in walk_no_nested(rz.node) if isinstance(n, ast.Assign) and isinstance(n.value, ast.ListComp)
+                   and ".random()" in ast.unparse(n.value) and ast.unparse(n.value.generators[0].iter) in comb}
     for name, loop in iterated:
         # element provenance: every element ever put into the set
         elems: list[str] = []
@@ -147,13 +152,13 @@ def run(m: Model, r: Report, tier: str) -> None:
         for n in walk_no_nested(rz.node):
             if isinstance(n, ast.Call) and isinstance(n.func, ast.Attribute) and ast.unparse(n.func.value) == name and n.func.attr in ("add", "update"):
                 elems += [ast.unparse(a) for a in n.args]
-        bad = [e for e in elems if not (e in int_names or e.isdigit() or e == "transitions")]
+        bad = [e for e in elems if not (e in int_names or e.isdigit() or e in trans_names)]
         draws = any(isinstance(x, ast.Call) and ast.unparse(x.func).startswith("rng.") for x in ast.walk(loop))
         r.check(not bad, "R5", f"{rz.qualname}#set-iteration:{name}",
                 f"set {name} is iterated{' while drawing random numbers' if draws else ''} and may hold {bad}: the order of str/bytes/object elements "
                 "depends on the hash seed", loc=f"{rz.module.relpath}:{loop.lineno}", fact_ok=f"elements {sorted(set(elems))} are ints")
-    tr_def = [n for n in ast.walk(rz.node) if isinstance(n, ast.Assign) and ast.unparse(n.targets[0]) == "transitions"]
-    r.check(len(tr_def) == 1 and "for session in combined_sessions" in ast.unparse(tr_def[0].value), "R5", f"{rz.qualname}#transitions-from-config",
+    tr_def = [n for n in ast.walk(rz.node) if isinstance(n, ast.Assign) and ast.unparse(n.targets[0]) in trans_names]
+    r.check(len(tr_def) == 1 and isinstance(tr_def[0].value, ast.ListComp) and ast.unparse(tr_def[0].value.generators[0].iter) in comb, "R5", f"{rz.qualname}#transitions-from-config",
             "transition targets must be drawn by iterating the configured session list (a list, in order)", loc=rz.loc)
     params = rs.nested.get("RandomnessParameters")
     opt = params.class_attrs.get("optional_services") if params else None
@@ -164,10 +169,10 @@ def run(m: Model, r: Report, tier: str) -> None:
 
     # ---------------------------------------------------------------- R6
     loops = [n for n in walk_no_nested(rz.node) if isinstance(n, ast.For) and "self.randomness_parameters.mandatory_services +" in ast.unparse(n.iter)]
-    r.check(len(loops) == 1 and ast.unparse(loops[0].iter).startswith("self.randomness_parameters.mandatory_services + [s for s in self.randomness_parameters.optional_services if"),
+    r.check(len(loops) == 1 and m.mtext(rz, loops[0].iter).startswith("self.randomness_parameters.mandatory_services + [_L for _L in self.randomness_parameters.optional_services if"),
             "R6", f"{rz.qualname}#mandatory-services", "mandatory services must be concatenated unconditionally into every session's service list", loc=rz.loc)
-    ret = [n for n in walk_no_nested(rz.node) if isinstance(n, ast.For) and ast.unparse(n.iter) == "next_level_sessions" and
-           any("session_transitions[session].add(default_session)" in ast.unparse(s) for s in n.body)]
+    ret = [n for n in walk_no_nested(rz.node) if isinstance(n, ast.For) and isinstance(n.iter, ast.Name) and n.iter.id in set_vars and
+           any(m.has(rz, "session_transitions[session].add(default_session)", s) for s in n.body)]
     r.check(len(ret) == 1, "R6", f"{rz.qualname}#return-to-default", "every newly offered session must get the transition back to the default session", loc=rz.loc)
     ml = [n for n in walk_no_nested(rz.node) if isinstance(n, ast.For) and ast.unparse(n.iter) == "self.randomness_parameters.mandatory_sessions"]
     okm = False
@@ -175,14 +180,17 @@ def run(m: Model, r: Report, tier: str) -> None:
         body = [ast.unparse(s) for s in ast.walk(ml[0]) if isinstance(s, (ast.Assign, ast.Expr))]
         def idx(sub):
             return next((i for i, t in enumerate(body) if sub in t), None)
-        a, c, own = idx("available_sessions ="), idx("rng.choice(available_sessions)"), idx("session_transitions[session] = {default_session}")
-        guard = any(isinstance(s, ast.If) and ast.unparse(s.test).replace(" ", "") == "len(session_transitions[session])==0" for s in ml[0].body)
+        body = [m.mtext(rz, s) for s in ast.walk(ml[0]) if isinstance(s, (ast.Assign, ast.Expr))]
+        a, c, own = idx("_L = [_L for _L, _L in enumerate(_L) if len(_L) > 0]"), idx("_L.choice(_L)"), idx("_L[_L] = {_L}")
+        guard = any(isinstance(s, ast.If) and m.mtext(rz, s.test).replace(" ", "") == "len(_L[_L])==0" for s in ml[0].body)
         okm = None not in (a, c, own) and a < c < own and guard
     r.check(okm, "R6", f"{rz.qualname}#mandatory-session-parent",
             "a mandatory session that is not yet offered must be attached to a session chosen among those already offered *before* it receives its own "
             "transitions; otherwise it can be chosen as its own parent and is unreachable from the default session", loc=rz.loc)
-    dsc = [n for n in ast.walk(rz.node) if isinstance(n, ast.Assign) and ast.unparse(n.targets[0]) == "supported_sub_functions" and "session_specific_transitions" in ast.unparse(n.value)]
-    r.check(len(dsc) == 1 and ast.unparse(dsc[0].value) == "sorted(session_specific_transitions)", "R6", f"{rz.qualname}#dsc-sub-functions",
+    dsc_if = [n for n in ast.walk(rz.node) if isinstance(n, ast.If) and "UDSIsoServices.DiagnosticSessionControl" in ast.unparse(n.test)]
+    dsc = [s_ for n in dsc_if for s_ in n.body if isinstance(s_, ast.Assign)]
+    enum_vars = {ast.unparse(n.target.elts[1]) for n in walk_no_nested(rz.node) if isinstance(n, ast.For) and isinstance(n.target, ast.Tuple) and "enumerate(" in ast.unparse(n.iter)}
+    r.check(len(dsc) == 1 and isinstance(dsc[0].value, ast.Call) and ast.unparse(dsc[0].value.func) == "sorted" and ast.unparse(dsc[0].value.args[0]) in enum_vars, "R6", f"{rz.qualname}#dsc-sub-functions",
             "the DiagnosticSessionControl sub-functions of a session must be exactly its (sorted) transitions", loc=rz.loc)
 
     r.extra["time_calls_outside_model"] = [f"{f.qualname}:{n.lineno}" for f in m.require_class(f"{SRV}.UDSServerTransport").methods.values()
